@@ -123,6 +123,45 @@ Definition uniform_types (t : Z) (ops : list lop) : bool :=
 Definition posts_elsewhere (me : Z) (ops : list lop) : bool :=
   forallb (fun o => match o with LPost t _ _ => negb (t =? me) | _ => true end) ops.
 
+(* ---------- a message_sender that raises (fault stream) ----------
+   [F] = payload ids on which the communication layer raises when the computation's own post
+   towards another computation is handed to message_sender (UnreachableAgent / UnknownAgent with
+   on_error='fail').  What the code does with the exception: it propagates to the caller.
+   post_msg (not paused): the call was made, nothing else changes.  pause(False): the flag is
+   already False, the message being sent has been popped (it is lost), the rest of
+   _paused_messages_post stays buffered and the re-injection of held receptions is skipped.
+   The theorems are about [lrun] (no failure); this semantics is tied to the code by the
+   correspondence run only, and [check_case] checks that it coincides with [lrun] when F = []. *)
+Definition fails (F : list Z) (me tgt id : Z) : bool := zmem id F && negb (tgt =? me).
+
+(* while self._paused_messages_post: target, msg, prio, e = pop(0); self.post_msg(...) *)
+Fixpoint fflush (F : list Z) (B : list (Z * Z * option Z)) (st : lstate) : lstate * bool :=
+  match B with
+  | [] => (lset_bpost st [], false)
+  | p :: r =>
+      let st1 := lpost (lset_bpost st r) (fst (fst p)) (snd (fst p)) (snd p) in
+      if fails F (l_me st) (fst (fst p)) (snd (fst p)) then (st1, true) else fflush F r st1
+  end.
+
+Definition fstep (F : list Z) (st : lstate) (o : lop) : lstate * bool :=
+  match o with
+  | LPost t i p =>
+      if negb (l_paused st) then (sender st (l_me st) t i p, fails F (l_me st) t i)
+      else (lpost st t i p, false)
+  | Resume =>
+      let st1 := if Bool.eqb (l_paused st) false then st else lset_paused st false in
+      let '(st2, raised) := fflush F (l_bpost st1) st1 in
+      if raised then (st2, true) else (reinject st2, false)
+  | _ => (lstep st o, false)
+  end.
+
+Fixpoint frun (F : list Z) (st : lstate) (ops : list lop) : lstate * list bool :=
+  match ops with
+  | [] => (st, [])
+  | o :: r => let '(st1, x) := fstep F st o in
+              let '(st2, xs) := frun F st1 r in (st2, x :: xs)
+  end.
+
 (* ---------- correspondence ---------- *)
 Definition call_eqb (a b : call) : bool :=
   (k_src a =? k_src b) && (k_dst a =? k_dst b) && (k_id a =? k_id b)
@@ -137,16 +176,26 @@ Record lcase := mkLCase {
   c_brecv : list (Z * Z);                   (* observed final _paused_messages_recv *)
   c_bpost : list (Z * Z * option Z);        (* observed final _paused_messages_post *)
   c_running : bool; c_paused : bool;
-  c_safe : bool                             (* observed: no unsafe re-injection happened *)
+  c_safe : bool;                            (* observed: no unsafe re-injection happened *)
+  c_fail : list Z;                          (* ids on which the driver's sender raises *)
+  c_raised : list bool                      (* observed, per op: the call raised *)
 }.
 Definition case := lcase.
 
-Definition check_case (c : case) : bool :=
-  let st := lrun (linit (c_me c)) (c_ops c) in
+Definition state_matches (st : lstate) (c : case) : bool :=
   list_eqb zz_eqb (l_handled st) (c_handled c)
   && list_eqb call_eqb (l_calls st) (c_calls c)
   && list_eqb qent_eqb (l_queue st) (c_queue c)
   && list_eqb zz_eqb (l_brecv st) (c_brecv c)
   && list_eqb (pair_eqb zz_eqb (option_eqb Z.eqb)) (l_bpost st) (c_bpost c)
-  && Bool.eqb (l_running st) (c_running c) && Bool.eqb (l_paused st) (c_paused c)
-  && Bool.eqb (safe_run (linit (c_me c)) (c_ops c)) (c_safe c).
+  && Bool.eqb (l_running st) (c_running c) && Bool.eqb (l_paused st) (c_paused c).
+
+Definition check_case (c : case) : bool :=
+  let '(fst_, raised) := frun (c_fail c) (linit (c_me c)) (c_ops c) in
+  state_matches fst_ c && list_eqb Bool.eqb raised (c_raised c)
+  && match c_fail c with
+     | [] => (* failure-free: the function the theorems are about *)
+         state_matches (lrun (linit (c_me c)) (c_ops c)) c
+         && Bool.eqb (safe_run (linit (c_me c)) (c_ops c)) (c_safe c)
+     | _ => true
+     end.
